@@ -244,6 +244,42 @@ func ruleClientBlock(p *Prog, r *Out) {
 	} else {
 		r.bad("a response ends with DATA+END_STREAM or with the block its HEADERS ended the stream on", "?", "(*Conn).endsStream no longer resolves")
 	}
+	// interim (1xx) blocks: decoded and checked like any other, their fields left out of the response
+	if fd := p.decl("(*Conn).readHeader"); fd != nil {
+		mark, skip, add, valid := token.NoPos, token.NoPos, token.NoPos, token.NoPos
+		ast.Inspect(fd.Body, func(n ast.Node) bool {
+			switch x := n.(type) {
+			case *ast.AssignStmt:
+				if squash(p.text(x)) == "c.block.interim=n<200" {
+					mark = x.Pos()
+				}
+			case *ast.IfStmt:
+				if squash(p.text(x.Cond)) == "c.block.interim" && len(x.Body.List) == 1 && squash(p.text(x.Body.List[0])) == "continue" {
+					skip = x.Pos()
+				}
+				if squash(p.text(x.Cond)) == "isConnectionSpecific(hf.KeyBytes())" {
+					valid = x.Pos()
+				}
+			case *ast.CallExpr:
+				if squash(p.text(x.Fun)) == "res.Header.AddBytesKV" || squash(p.text(x.Fun)) == "res.Header.SetContentLength" {
+					if !add.IsValid() {
+						add = x.Pos()
+					}
+				}
+			}
+			return true
+		})
+		open := false
+		if od := p.decl("(*headerBlock).open"); od != nil {
+			ast.Inspect(od.Body, func(n ast.Node) bool {
+				if as, ok := n.(*ast.AssignStmt); ok && squash(p.text(as)) == "hb.interim=false" {
+					open = true
+				}
+				return true
+			})
+		}
+		r.check(mark.IsValid() && skip.IsValid() && valid.IsValid() && add.IsValid() && skip > valid && skip < add && open, "the fields of an interim block are decoded, checked and left out", p.pos(fd.Pos()), "interim = status < 200 (cleared when a block opens); after the field checks: if interim { continue } before the field is stored", "readHeader adds the fields of a 1xx block to the caller's Response again (or stops checking them): a 103 Early Hints before the 200 leaves its link fields on the final response")
+	}
 	// dispatch tail
 	if fd := p.decl("(*Conn).dispatch"); fd != nil {
 		finIdx := -1
